@@ -424,7 +424,10 @@ namespace
             run_case(kind, c, [&] {
                 auto r  = case_rng(a.seed, a.group, kind, c);
                 auto h1 = make_probe("A", false, "C11"), h2 = make_probe("B", false, "C11");
-                h1->canary_prop = h2->canary_prop = "C11"; // bytes written past the block: "throws out_of_fixed_memory instead of overrunning"
+                // a request the joint memory cannot hold is refused: the refusal writes nothing outside the block and leaves the object
+                // usable - the failure clause of C03 seen through the same observations
+                // (when C03 is being decided, bytes written past the block are blamed on the refusal)
+                h1->canary_prop = h2->canary_prop = cx().prop == "C03" ? "C03" : "C11"; // bytes written past the block: "throws out_of_fixed_memory instead of overrunning"
                 h2->exact_align = false; // blocks of B are 16-aligned: padding differs from objects living in A
                 probe_raw A(h1), B(h2);
                 auto      live0 = L().live.size();
